@@ -1,7 +1,6 @@
 import copy
 
 from mindsdb_sql import ParsingException
-from mindsdb_sql.parser.utils import to_single_line
 
 
 class ASTNode:
@@ -41,7 +40,7 @@ class ASTNode:
 
     def __eq__(self, other):
         if isinstance(other, ASTNode):
-            return self.to_tree() == other.to_tree() and to_single_line(str(self)) == to_single_line(str(other))
+            return self.to_tree() == other.to_tree() and str(self) == str(other)
         else:
             return False
 
